@@ -484,6 +484,8 @@ PROPS['C06'] = dict(
         ('TruncFacts', 'C06_truncated_rejected', 'The same on the public entry points: parse(build(v)[:k]) raises StreamError for every k < len.'),
         ('ErrFacts', 'parse_only_construct_errors', 'For EVERY construct of the closed sequential fragment (any depth) and EVERY input - any bytes, any position, truncated or not - parse returns a value or fails with a ConstructError subclass; no foreign exception comes out (the model\'s own meta outcomes apart).'),
         ('ErrFacts', 'C06_only_construct_errors', 'The same on the public entry point parse(data, **kw).'),
+        ('BuildErr', 'build_fields_only_construct_errors', 'BUILD direction: no field class (FormatField, BytesInteger, BitsInteger, VarInt, ZigZag, Bytes, GreedyBytes, Flag, and Enum / FlagsEnum / Mapping / string encodings over them) lets a foreign exception out of build, whatever value it is handed (true of the model only after the repairs F36-F38).'),
+        ('BuildErr', 'C06_field_build_errors_are_construct_errors', 'The same stated on the result: a build of a field class that fails, fails with a ConstructError subclass.'),
         ('TruncDep', 'dep_truncation', 'Truncation for DEPENDENT layouts (DepRT.dfrag): every strict prefix of what such a construct builds is rejected with StreamError - the members before the cut parse back to what was built, so the sizes and choices later members read are the built ones, and the member the cut falls in runs out of data.'),
         ('TruncDep', 'C06_truncated_rejected_dependent', 'On the public entry points for the dependent fragment.'),
         ('TruncDep', 'ex_tlv_truncated', 'Every strict prefix of a built tag-length-value record is rejected (kernel-evaluated).'),
